@@ -105,3 +105,43 @@ def run(chk):
                        "with the extensions removed (ImportError fallback) must give identical observations; every stream also against the "
                        "Lean model; non-trivial = distinct projects + interval sets + boards")
     return conclude(chk, dis1 + dis_d + dis2 + dis3 + dis4, lambda: found)
+
+
+def replay(chk, payload):
+    """re-run the recorded input: a line of the wh / daily / slot / scan streams in both configurations, or a whole project"""
+    from .common import replay_items
+    found, dis = [], []
+    cfg = lambda l: "pure" if l.split()[1] == "py" else "native"
+    for it in replay_items(chk):
+        if isinstance(it.get("ast"), dict):
+            rn = project_stream.run_projects(chk, [it["ast"]], want_oracles=(), config="native")
+            o = chk.impl.run(["J " + json.dumps({"op": "sched", "text": rn[0]["text"]})], config="pure")[0]
+            op = json.loads(o[2:]) if o.startswith("J ") else {"error": "Crash", "raw": o[:300]}
+            if rn[0]["diffs"] and not rn[0]["skipped"]:
+                dis.append({"stream": "project", "text": rn[0]["text"], "ast": it["ast"], "diffs": rn[0]["diffs"][:6]})
+            if strip_private(rn[0]["obs"]) != strip_private(op):
+                found.append(("C13: a project schedules differently with the extensions enabled and disabled", {"text": rn[0]["text"], "ast": it["ast"]}))
+            continue
+        l = it.get("input")
+        if not isinstance(l, str):
+            continue
+        t = l.split()
+        if len(t) > 1 and t[1] in ("py", "cy"):
+            pair = [" ".join([t[0], "py"] + t[2:]), " ".join([t[0], "cy"] + t[2:])]
+            d, _, real = chk.differential(it.get("stream", "replay"), pair, impl_of=cfg)
+            dis += d
+            if real[0] != real[1]:
+                found.append((f"C13: {t[0]} differs between pure Python ({real[0]}) and compiled ({real[1]})", {"input": l}))
+        elif t and t[0] in ("idx2t", "t2idx", "pidx2t", "pt2idx"):
+            pair = [" ".join([t[0], "py"] + t[1:]), " ".join([t[0], "cy"] + t[1:])]
+            d, _, real = chk.differential("slots", pair, impl_of=cfg)
+            dis += d
+            if real[0] != real[1]:
+                found.append((f"C13: {t[0]} differs between pure Python ({real[0]}) and compiled ({real[1]})", {"input": l}))
+        else:
+            a = chk.impl.run([l], config="native")[0]
+            b = chk.impl.run([l], config="pure")[0]
+            if a != b:
+                found.append((f"C13: {t[0] if t else l} differs: compiled {a} vs pure {b}", {"input": l}))
+        chk.cov["evaluations"] += 1
+    return conclude(chk, dis, lambda: found)
